@@ -1,4 +1,4 @@
-"""A8 — state across re-entry (DESIGN §10).
+"""A9 — state across re-entry (DESIGN §10).
 
 The code generator is re-entrant: `emit_token` runs nested activations of itself for the body of a scope, loop, macro, import, segment
 block, `.if` branch … .  A field of the (single) context that one activation *overwrites* before it starts a nested activation and *reads*
